@@ -14,14 +14,20 @@
       range carry zero precision — which is what `MlpgAdjust::create` arranges (`Jb/Proofs/Assemble.lean`;
       this is where the latent `break` of DESIGN.md F8 is shown harmless).
     * positive definiteness ⇒ every pivot is positive (`Jb/Proofs/Pivots.lean`), so the solver's hypothesis
-      holds for the MLPG system (positive static precisions); the capstone combining all of this is
-      `Jb/Proofs/MlpgMain.lean`.
+      holds for the MLPG system (positive static precisions); `Jb/Proofs/MlpgMain.lean` combines these into
+      "solve returns the solution of the dense normal equations";
+    * `Jb/Proofs/MlpgMl.lean` closes the chain: the observation sequences `create` builds satisfy the edge
+      hypothesis, and the returned trajectory maximises the log-likelihood over all sequences
+      (`create_is_maximum_likelihood`).
 -/
 import Jb.Proofs.Mask
 import Jb.Proofs.Ldl
 import Jb.Proofs.Likelihood
 import Jb.Proofs.Assemble
 import Jb.Proofs.Pivots
+import Jb.Proofs.MlpgMain
+import Jb.Proofs.MlpgMl
+import Jb.Proofs.Engine
 import Mathlib.Tactic.NormNum
 
 set_option linter.unusedSectionVars false
@@ -103,6 +109,87 @@ theorem assembles_normal_equations [Transc K] [Consts K] [MlpgConsts K]
     ∀ j, j < width → t + j < T → (wuwRow windows obs T width t).1.getD j 0 = wpwEntry windows obs T t (t + j) :=
   wuwRow_eq windows obs T width t ht hw hobs hedge
 
+/-- **MLPG solves the normal equations, end to end.** For windows whose first is the static window `[1]`,
+    non-negative precisions, positive static precisions and zero precision on observations whose span leaves
+    the frame range, the matrix `calc_wuw_and_wum` builds is positive definite, no pivot vanishes, and
+    `solve` returns `c` with `(W'PW) c = W'Pμ` — `W'PW` and `W'Pμ` written from the definition. -/
+theorem solves_normal_equations [Transc K] [Consts K] [MlpgConsts K]
+    (windows : List (List K)) (obs : List (List (MeanVari K))) (T : Nat)
+    (hstatic : windows.head? = some [1]) (hlen : windows.length = obs.length)
+    (hobs : ∀ o ∈ obs, o.length = T) (hedge : EdgeZero windows obs T)
+    (hnonneg : ∀ o ∈ obs, ∀ mv ∈ o, 0 ≤ mv.vari) (hpos : ∀ mv ∈ obs.headD [], 0 < mv.vari)
+    (m : MlpgMatrix K) (hm : calcWuwWum windows obs = some m) :
+    m.solve.length = T ∧
+    ∀ t, t < T →
+      ((Finset.range T).sum fun t' => wpwEntry windows obs T t t' * m.solve.getD t' 0) = wpmEntry windows obs T t :=
+  mlpg_solves_normal_equations windows obs T hstatic hlen hobs hedge hnonneg hpos m hm
+
+/-- **The solver output is the maximum-likelihood sequence** — over every other sequence, for the scalar
+    observations `obsOf` written from the definition (one per window and frame). -/
+theorem solution_maximises_likelihood [Transc K] [Consts K] [MlpgConsts K]
+    (windows : List (List K)) (obs : List (List (MeanVari K))) (T : Nat)
+    (hstatic : windows.head? = some [1]) (hlen : windows.length = obs.length)
+    (hobs : ∀ o ∈ obs, o.length = T) (hedge : EdgeZero windows obs T)
+    (hnonneg : ∀ o ∈ obs, ∀ mv ∈ o, 0 ≤ mv.vari) (hpos : ∀ mv ∈ obs.headD [], 0 < mv.vari)
+    (m : MlpgMatrix K) (hm : calcWuwWum windows obs = some m) (c' : Fin T → K) :
+    loglik (obsOf windows obs T) c' ≤ loglik (obsOf windows obs T) (fun t => m.solve.getD t.val 0) :=
+  mlpg_maximises_likelihood windows obs T hstatic hlen hobs hedge hnonneg hpos m hm c'
+
+/-- **Edge precisions.** The observation sequences `MlpgAdjust::create` builds (compacted to the voiced
+    frames) carry zero precision wherever a window's span leaves the voiced frames — the hypothesis of the
+    assembly theorem holds by construction. -/
+theorem create_edge_precisions_zero [Transc K] [Consts K] [MlpgConsts K]
+    (veclen : Nat) (stream : List (StateParam K)) (thr : K) (durs : List Nat)
+    (windows : List (List K)) (m : Nat) (hstatic : windows.head? = some [1]) (hd : durs.length ≤ stream.length) :
+    EdgeZero windows (createObs veclen stream durs (maskCreate stream thr durs) windows m)
+      ((maskCreate stream thr durs).filter id).length :=
+  windowParams_edgeZero veclen stream thr durs windows m hstatic hd
+
+/-- **C05, end to end.** What the model of `MlpgAdjust::create` returns for a stream without GV is, column by
+    column and restricted to the voiced frames, the maximum-likelihood static sequence for the state
+    Gaussians its durations assign and the voice's windows — better than or equal to every other sequence.
+    Hypotheses: first window static `[1]`, precisions (after `with_ivar`) non-negative, static ones positive. -/
+theorem create_is_maximum_likelihood [Transc K] [Consts K] [MlpgConsts K]
+    (gvWeight thr : K) (s : StreamIn K) (durs : List Nat)
+    (hgv : s.gv = none) (hstatic : s.windows.head? = some [1]) (hd : durs.length ≤ s.stream.length)
+    (hnonneg : ∀ st ∈ s.stream, ∀ p ∈ st.params, 0 ≤ (withIvar p).vari)
+    (hdflt : 0 ≤ (withIvar (⟨0, 0⟩ : MeanVari K)).vari)
+    (hpos : ∀ st ∈ s.stream, ∀ m, m < s.vectorLength → 0 < (withIvar (st.params.getD m ⟨0, 0⟩)).vari)
+    (traj : List (List K)) (h : mlpgCreate gvWeight thr s durs = .ok traj) (m : Nat) (hm : m < s.vectorLength) :
+    let mask := maskCreate s.stream thr durs
+    let T := (mask.filter id).length
+    let obs := createObs s.vectorLength s.stream durs mask s.windows m
+    let col := filterBy (traj.map fun r => r.getD m 0) mask
+    col.length = T ∧
+    ∀ c' : Fin T → K, loglik (obsOf s.windows obs T) c' ≤ loglik (obsOf s.windows obs T) (fun t => col.getD t.val 0) :=
+  mlpgCreate_is_ml gvWeight thr s durs hgv hstatic hd hnonneg hdflt hpos traj h m hm
+
+/-- … and `create` does return a trajectory (one row per frame) on every well-formed stream, so the statement
+    above is about something: existence and optimality together. -/
+theorem create_total_and_ml [FloorRing K] [Transc K] [Consts K] [MlpgConsts K]
+    (gvWeight thr : K) (s : StreamIn K) (durs : List Nat)
+    (hwf : StreamWF s) (hgv : s.gv = none) (hstatic : s.windows.head? = some [1]) (hd : durs.length ≤ s.stream.length)
+    (hnonneg : ∀ st ∈ s.stream, ∀ p ∈ st.params, 0 ≤ (withIvar p).vari)
+    (hdflt : 0 ≤ (withIvar (⟨0, 0⟩ : MeanVari K)).vari)
+    (hpos : ∀ st ∈ s.stream, ∀ m, m < s.vectorLength → 0 < (withIvar (st.params.getD m ⟨0, 0⟩)).vari) :
+    ∃ traj, mlpgCreate gvWeight thr s durs = .ok traj ∧ traj.length = durs.sum ∧
+      ∀ m, m < s.vectorLength →
+        let mask := maskCreate s.stream thr durs
+        let T := (mask.filter id).length
+        let obs := createObs s.vectorLength s.stream durs mask s.windows m
+        let col := filterBy (traj.map fun r => r.getD m 0) mask
+        col.length = T ∧
+        ∀ c' : Fin T → K, loglik (obsOf s.windows obs T) c' ≤ loglik (obsOf s.windows obs T) (fun t => col.getD t.val 0) := by
+  obtain ⟨traj, h, hl, _⟩ := mlpgCreate_shape_partial gvWeight thr s durs hwf hd (by simp [hgv])
+  exact ⟨traj, h, hl, fun m hm =>
+    mlpgCreate_is_ml gvWeight thr s durs hgv hstatic hd hnonneg hdflt hpos traj h m hm⟩
+
+/-- a positive variance inside the representable range becomes a positive precision -/
+theorem precision_positive [Transc K] [Consts K] [MlpgConsts K] (p : MeanVari K)
+    (h0 : 0 < (MlpgConsts.ivarMax : K)) (hv : 0 < p.vari) (hhi : p.vari ≤ MlpgConsts.ivarHi) :
+    0 < (withIvar p).vari :=
+  withIvar_pos p h0 hv hhi
+
 /-! Non-vacuity: a 3-frame, half-bandwidth-1 system over ℚ; the hypotheses of `solve_solves` hold and
     the solution is the exact rational one. -/
 def exM : MlpgMatrix ℚ := { winSize := 2, length := 3, width := 2, wuw := [[2, 1], [3, 1], [4, 0]], wum := [1, 2, 3] }
@@ -110,5 +197,32 @@ def exM : MlpgMatrix ℚ := { winSize := 2, length := 3, width := 2, wuw := [[2,
 example : exM.solve = [1 / 3, 1 / 3, 2 / 3] := by
   simp [exM, MlpgMatrix.solve, ldlRows, ldlRow, forwardSub, backwardSub, List.range, List.range.loop]
   norm_num
+
+/-! Non-vacuity of `create_total_and_ml`: a two-state stream over ℚ with a static and a delta window meets
+    every hypothesis. -/
+section Example
+local instance : Transc ℚ := ⟨id, id, id, id, fun x _ => x⟩
+local instance : Consts ℚ := ⟨10, 3, 1 / 17, 1 / 9, -10000000000, 3⟩
+local instance : MlpgConsts ℚ := ⟨10 ^ 19, 1 / 10 ^ 19, 10 ^ 38⟩
+
+def exS : StreamIn ℚ :=
+  { vectorLength := 1, gv := none, windows := [[1], [-1 / 2, 0, 1 / 2]],
+    stream := [⟨[⟨1, 1⟩, ⟨0, 2⟩], 1⟩, ⟨[⟨3, 1 / 2⟩, ⟨1, 4⟩], 1⟩] }
+
+example : StreamWF exS ∧ exS.gv = none ∧ exS.windows.head? = some [1] ∧ [2, 1].length ≤ exS.stream.length ∧
+    (∀ st ∈ exS.stream, ∀ p ∈ st.params, 0 ≤ (withIvar p).vari) ∧
+    0 ≤ (withIvar (⟨0, 0⟩ : MeanVari ℚ)).vari ∧
+    (∀ st ∈ exS.stream, ∀ m, m < exS.vectorLength → 0 < (withIvar (st.params.getD m ⟨0, 0⟩)).vari) := by
+  refine ⟨⟨by simp [exS], by simp [exS]⟩, rfl, rfl, by simp [exS], ?_, ?_, ?_⟩
+  · simp only [exS, List.mem_cons, List.not_mem_nil, or_false, forall_eq_or_imp, forall_eq]
+    norm_num [withIvar, absS, MlpgConsts.ivarHi, MlpgConsts.ivarLo, MlpgConsts.ivarMax]
+  · norm_num [withIvar, absS, MlpgConsts.ivarHi, MlpgConsts.ivarLo, MlpgConsts.ivarMax]
+  · intro st hst m hm
+    have hm0 : m = 0 := by simp [exS] at hm; exact hm
+    subst hm0
+    simp only [exS, List.mem_cons, List.not_mem_nil, or_false] at hst
+    rcases hst with rfl | rfl <;>
+      norm_num [withIvar, absS, MlpgConsts.ivarHi, MlpgConsts.ivarLo, MlpgConsts.ivarMax]
+end Example
 
 end Jb.C05
